@@ -243,13 +243,19 @@ func (g *richGen) stmt() {
 		g.ln(`do local o%d = setmetatable({id=%d}, {__gc = function(o) emit("gc", o.id) end}); o%d = nil end`, n, n, n)
 	case 15: // global state mutation (E-ISO)
 		g.feat["mutate"] = true
-		sub := g.t.Choose(8)
+		sub := g.t.Choose(9)
 		if sub == 6 && !g.t.Chance(1, 4) {
 			sub = 0 // the collectgarbage mutation hits an open finding: keep it rare
 		}
 		switch sub {
 		case 6:
 			g.ln(`collectgarbage("stop"); probe(0); emit("gcstopped%d", collectgarbage("isrunning")); collectgarbage("restart"); probe(0); emit("gcrestarted%d", collectgarbage("isrunning"))`, n, n)
+		case 8:
+			if g.t.Chance(1, 2) {
+				g.ln(`warn("@on"); probe(0); warn("w%d-", "a"); emit("x%d")`, n, n)
+			} else {
+				g.ln(`warn("quiet%d"); probe(0); warn("@off"); emit("x%d")`, n, n)
+			}
 		case 7:
 			g.ln(`math.randomseed(%d); probe(0); local a%d = math.random(100000); probe(0); local b%d = math.random(100000); math.randomseed(%d); emit("x%d", a%d == math.random(100000), b%d == math.random(100000))`, n, n, n, n, n, n, n)
 		case 0:
